@@ -256,7 +256,7 @@ def plan(events, tier, rng, scale=1.0, which="enc"):
     for key, lst in osinit.items():
         ks.update(pick3(lst))
     if tier == "quick":
-        budget = int((300 if which == "enc" else 200) * scale)
+        budget = int((280 if which == "enc" else 150) * scale)
         by_fn = occurrences([e for e in events if e.kind not in OSINIT], lambda e: (e.phase, e.site_fn))
         # every (API, call-site function) at its first, middle and last occurrence ...
         for key, lst in by_fn.items():
@@ -568,9 +568,9 @@ def run(chk, tier, replay=None):
     if part:
         ex_all = False
     ivf = tiny_ivf(chk.dir)
-    _, _, ex = explore(chk, "dec", tier, ["ivf=" + ivf, "threads=1", "frames=2", "hard_s=240", "cpu_s=60"], workers, scale=scale, label="dec-threads1")
+    _, _, ex = explore(chk, "dec", tier, ["ivf=" + ivf, "threads=1", "frames=2", "hard_s=240", "cpu_s=30"], workers, scale=scale, label="dec-threads1")
     ex_all &= ex
-    _, _, ex = explore(chk, "dec", tier, ["ivf=" + ivf, "threads=2", "frames=2", "hard_s=240", "cpu_s=60"], workers, scale=scale, label="dec-threads2",
+    _, _, ex = explore(chk, "dec", tier, ["ivf=" + ivf, "threads=2", "frames=2", "hard_s=240", "cpu_s=30"], workers, scale=scale, label="dec-threads2",
                        mt_prefix=True)
     ex_all &= ex
     if ex_all:
@@ -677,7 +677,7 @@ def campaign(argv):
     if which == "enc":
         opts = enc_opts()
     else:
-        opts = ["ivf=" + tiny_ivf(chk.dir), "threads=2", "frames=2", "hard_s=240", "cpu_s=60"]
+        opts = ["ivf=" + tiny_ivf(chk.dir), "threads=2", "frames=2", "hard_s=240", "cpu_s=30"]
 
     def choose(events):
         if mode == "all":
@@ -689,7 +689,7 @@ def campaign(argv):
         return plan(events, "campaign", chk.rng, 1.0, which)[0]
 
     if which == "dec":
-        events, found, _ = explore(chk, which, "campaign", opts[:1] + ["threads=1", "frames=2", "hard_s=240", "cpu_s=60"], workers,
+        events, found, _ = explore(chk, which, "campaign", opts[:1] + ["threads=1", "frames=2", "hard_s=240", "cpu_s=30"], workers,
                                    ks_override=lambda ev: [e.k for e in ev], label="dec-threads1")
         ev2, found2, _ = explore(chk, which, "campaign", opts, workers, ks_override=lambda ev: [e.k for e in ev],
                                  label="dec-threads2", mt_prefix=True)
@@ -735,8 +735,9 @@ def write_root_cause_groups():
         apis = sorted({k.split("|")[1] for k in g["keys"]})
         sites = sorted({re.escape(k.split("|")[2]) for k in g["keys"]})
         outs = sorted({k.split("|")[3] for k in g["keys"]})
-        if all(o in ("returns-success", "leak", "hang") for o in outs):
-            tail = "(%s)" % "|".join(outs)
+        corrupting = any(":" in o for o in outs)  # use-after-free etc.: where it surfaces depends on the k that failed
+        if not corrupting and (all(o in ("returns-success", "leak", "hang") for o in outs) or len(outs) <= 3):
+            tail = "(%s)" % "|".join(re.escape(o) for o in outs)
         else:
             tail = ".*"
         g["key_regex"] = "C16\\|(%s)\\|(%s)\\|%s" % ("|".join(apis), "|".join(sites), tail)
